@@ -146,3 +146,75 @@ func TestVerif_C02_KeyRange(t *testing.T) {
 		}
 	})
 }
+
+
+// Histories of consecutive SignHashed calls whose private keys are RELATED (prefix, extension, padding, one byte changed,
+// the same key again): each signature must be the standard's value for ITS key, whatever was signed before.
+func TestVerif_C02_RelatedKeyHistory(t *testing.T) {
+	rec := stats.Get("C02", "related-keys")
+	rec.Rule("rapid history of 2..5 SignHashed calls in one process; the key of each call is derived from the previous one by a drawn relation {same key, same key in a fresh slice, a prefix d[:k] (a shorter encoding = a different integer), an extension of a short key with drawn bytes, left-padded with zeros to 32 bytes (same integer), last byte changed, first byte changed, unrelated}; digest and nonce fresh per call. Oracle: every (r,s) equals sm2ref.Sign for that call's own key (or an error iff the key is outside [1,n-2]). Non-trivial: every history (state carried across calls); distinct by history.")
+	t.Cleanup(stats.FlushAll)
+	rapid.Check(t, func(t *rapid.T) {
+		r0 := gen.Rand(t, "seed")
+		_, key, _ := sm2gen.PrivKey(t, "d0")
+		steps := gen.Int(t, "steps", 2, 5)
+		var hist []byte
+		for i := 0; i < steps; i++ {
+			if i > 0 {
+				rel := gen.Pick(t, "relation", "same", "same-copy", "prefix", "extend", "pad32", "last-byte", "first-byte", "unrelated")
+				hist = append(hist, []byte(rel)[0], []byte(rel)[len(rel)-1])
+				switch rel {
+				case "same-copy":
+					key = append([]byte(nil), key...)
+				case "prefix":
+					if len(key) > 1 {
+						key = append([]byte(nil), key[:gen.Uniform(t, "plen", 1, len(key)-1)]...)
+					}
+				case "extend":
+					if len(key) < 32 {
+						key = append(append([]byte(nil), key...), gen.RandBytes(r0, 32-len(key))...)
+					}
+				case "pad32":
+					key = gen.Pad32(new(big.Int).SetBytes(key))
+				case "last-byte":
+					key = append([]byte(nil), key...)
+					key[len(key)-1] ^= byte(gen.Uniform(t, "delta", 1, 255))
+				case "first-byte":
+					key = append([]byte(nil), key...)
+					key[0] ^= byte(gen.Uniform(t, "delta", 1, 255))
+				case "unrelated":
+					_, key, _ = sm2gen.PrivKey(t, "dn")
+				}
+			}
+			d := new(big.Int).SetBytes(key)
+			e := gen.RandBytes(r0, 32)
+			stream := gen.RandBytes(r0, 96)
+			stream[0] &= 0x7f
+			var r, s []byte
+			var err error
+			if p := vt.Catch(func() { r, s, err = sm2.SignHashed(newStream(stream), key, e) }); p != nil {
+				vt.Fail(t, rec, "C02:history:panic", "SignHashed panicked at step %d of a related-key history: %v (key %x)", i, p, key)
+				return
+			}
+			if !sm2ref.ValidPrivate(d) {
+				if err == nil {
+					vt.Fail(t, rec, "C02:key:accepts-out-of-range:history", "step %d: key %x is outside [1,n-2] but a signature was returned", i, key)
+					return
+				}
+				continue
+			}
+			wr, ws, _, _, werr := sm2ref.Sign(d, e, stream)
+			if werr != nil {
+				continue
+			}
+			if err != nil || !bytes.Equal(r, gen.Pad32(wr)) || !bytes.Equal(s, gen.Pad32(ws)) {
+				vt.Fail(t, rec, "C02:history:value", "step %d of a history of consecutive SignHashed calls with related keys (relations %q): signature is not the standard's value for this call's key\nkey=%x e=%x stream=%x\n got r=%x s=%x err=%v\nwant r=%064x s=%064x", i, hist, key, e, stream, r, s, err, wr, ws)
+				return
+			}
+		}
+		rec.Case(stats.Hash(hist, key), true, fmt.Sprintf("steps:%d", steps))
+		if rec.WantSample("history") {
+			rec.Sample("history", map[string]interface{}{"relations(first,last letter)": fmt.Sprintf("%q", hist), "last_key": stats.Hex(key)})
+		}
+	})
+}
